@@ -33,6 +33,7 @@ func gen(tier string, out *vlib.Out) {
 		"new array 100\nappend 1\ndelete 0\nlen\nappend 5\ndelete 0",
 		"new array 2049\nappend 1,2\ndelete 0\ndelete 0\nasslice\nappend 3",
 		"new conc-array 65\nappend 1\ndelete 0\ndelete 0",
+		"new cowof 1,2,3,4\nrangemut 5 1 7",
 		"new linked\nget 0\ndelete 0\nadd 1 5\nadd 0 5\nadd 0 6\nadd 2 7\nadd 1 8\nget 3\nget 2\ndelete 3\ndelete 0",
 		"new array 0\nasslice\nrange\nget 0\nset 0 1\ndelete 0\ndelete -1",
 	}
@@ -43,6 +44,9 @@ func gen(tier string, out *vlib.Out) {
 	}
 	val := 0
 	next := func() int { val++; return val }
+	if tier == "thorough" {
+		exhaustive(out)
+	}
 	for c := 0; c < cases; c++ {
 		kind := vlib.Pick(r, kinds)
 		base := strings.TrimPrefix(kind, "conc-")
@@ -158,6 +162,22 @@ func gen(tier string, out *vlib.Out) {
 						}
 						out.Line("append %s", vlib.Ints(xs))
 						n += k
+					case pick < 85 && (base == "cow" || base == "cowof") && !strings.HasPrefix(kind, "conc-"):
+						// re-entrant writers during Range: a copy-on-write list must show the snapshot
+						d := r.Range(0, 2)
+						if d > n {
+							d = n
+						}
+						k := r.Range(0, n)
+						a := r.Range(0, 2)
+						xs := make([]int, a)
+						for i := range xs {
+							xs[i] = next()
+						}
+						out.Line("rangemut %d %d %s", k, d, vlib.Ints(xs))
+						if k < n {
+							n = n - d + a
+						}
 					case pick < 88:
 						out.Line("asslice")
 					case pick < 94:
@@ -168,6 +188,52 @@ func gen(tier string, out *vlib.Out) {
 				}
 			}
 		}
+	}
+}
+
+// exhaustive: every op sequence of length <= 4 (array lists: 3 for each of several capacities) over
+// append/add/delete/set/get with every index in [-1, len+1], on each implementation.
+func exhaustive(out *vlib.Out) {
+	type ctor struct {
+		line string
+		n    int
+	}
+	ctors := []ctor{{"new array 0", 0}, {"new array 1", 0}, {"new arrayof 1,2", 2}, {"new linked", 0},
+		{"new linkedof 1,2,3", 3}, {"new cow", 0}, {"new cowof 1,2", 2}, {"new conc-linked", 0}}
+	var rec func(c ctor, prefix []string, n, depth int)
+	rec = func(c ctor, prefix []string, n, depth int) {
+		if len(prefix) > 0 {
+			out.Line("%s", c.line)
+			for _, p := range prefix {
+				out.Line("%s", p)
+			}
+			out.Line("asslice")
+		}
+		if depth == 0 {
+			return
+		}
+		v := 10 + len(prefix)
+		rec(c, append(append([]string{}, prefix...), fmt.Sprintf("append %d", v)), n+1, depth-1)
+		for i := -1; i <= n+1; i++ {
+			n2 := n
+			if i >= 0 && i <= n {
+				n2 = n + 1
+			}
+			rec(c, append(append([]string{}, prefix...), fmt.Sprintf("add %d %d", i, v)), n2, depth-1)
+		}
+		for i := -1; i <= n; i++ {
+			n2 := n
+			if i >= 0 && i < n {
+				n2 = n - 1
+			}
+			rec(c, append(append([]string{}, prefix...), fmt.Sprintf("delete %d", i)), n2, depth-1)
+		}
+		for i := -1; i <= n; i++ {
+			rec(c, append(append([]string{}, prefix...), fmt.Sprintf("set %d %d", i, v)), n, depth-1)
+		}
+	}
+	for _, c := range ctors {
+		rec(c, nil, c.n, 3)
 	}
 }
 
@@ -301,6 +367,30 @@ func run(ops []string, out *vlib.Out, st *stats) {
 					_ = l.Set(0, snapshot[0])
 				}
 				extra = fmt.Sprintf(" nonnil=%d fresh=%d", nonnil, fresh)
+			case "rangemut":
+				k, _ := strconv.Atoi(w[1])
+				d, _ := strconv.Atoi(w[2])
+				app := vlib.ParseInts(w[3])
+				var seenVals []int
+				err := l.Range(func(i int, t int) error {
+					if i == k {
+						for j := 0; j < d; j++ {
+							if _, e := l.Delete(l.Len() - 1); e != nil {
+								return e
+							}
+						}
+						if e := l.Append(app...); e != nil {
+							return e
+						}
+					}
+					seenVals = append(seenVals, t)
+					return nil
+				})
+				if err != nil {
+					res = "err:range"
+				} else {
+					res = "ok:" + render(seenVals)
+				}
 			case "range":
 				var seenVals []int
 				idxOK := true
